@@ -12,6 +12,11 @@ SCHEDFACTS = [("QuartzModel.Theorems.SchedFacts", "Sched." + t) for t in ["valid
              [("QuartzModel.Theorems.C09Lin", "Sched.C09_lock_facts"), ("QuartzModel.Theorems.C09Lin", "Sched.C09_unlocked_are_reads"),
               ("QuartzModel.Theorems.MissingLocks", "Facts.missing_none_locks")]
 
+COMPOSE = [("QuartzModel.Theorems.Compose", "Sched." + t) for t in [
+    "cron_job_runs_only_at_matching_instants", "cron_job_dispatch_is_first_match", "cron_job_never_early", "cron_job_no_skip_while_on_time",
+    "cron_job_runs_exactly_the_first_matches", "cron_job_no_skip_from_empty", "cron_job_leaves_when_expired", "cron_job_stays_iff_match_left",
+    "parsed_cron_job_runs_only_at_matching_instants", "parsed_cron_job_never_early"]]
+
 THEOREMS = {
     "C05": [("QuartzModel.Theorems.MissingWakeup", "Facts.missing_none_wakeup")] + [("QuartzModel.Theorems.C05", "Wakeup." + t) for t in [
         "C05_facts_wf", "C05_invariant", "C05_parked_correct", "C05_never_lost", "C05_token_rereads", "C05_send_never_blocks", "C05_holds",
@@ -54,7 +59,7 @@ THEOREMS = {
         "C14_sound", "C14_no_miss", "C14_expiry", "C14_terminates", "C14_exact_away_from_transitions", "C14_exact_is_least",
         "C14_chain_increasing", "C14_fixed_zone_is_special_case", "C14_total", "C14_reading_advances", "C14_result_reading"]] +
            [("QuartzModel.Proofs.ZoneLemmas", "Cron.zoneLoop_spec"), ("QuartzModel.Proofs.ZoneLemmas", "Cron.zoneLoop_fuel")] + FACTS[:2],
-    "C03": SCHEDFACTS + [("QuartzModel.Theorems.C03", "Sched." + t) for t in ['C03_dispatch_has_entry', 'C03_never_early', 'C03_dispatch_is_popped_min', 'C03_own_trigger_once', 'C03_dispatch_answers_own_trigger', 'C03_at_most_once']], "C04": SCHEDFACTS + [("QuartzModel.Theorems.C04", "Sched." + t) for t in ['C04_accounted', 'C04_suspended_untouched', 'C04_misfire_iff_late', 'C04_misfire_only_if_late', 'C04_leaves_registry', 'C04_no_drift', 'C04_no_drift_start', 'C04_run_once', 'C04_hyps_reachable']], "C08": SCHEDFACTS + [("QuartzModel.Theorems.C12", "Pool.C12_facts")] + [("QuartzModel.Theorems.C08", "Sched." + t) for t in ['C08_pause_effect', 'C08_resume_from_now', 'C08_paused_no_consumption', 'C08_delete_effect', 'C08_clear_effect', 'C08_paused_no_consumption_reachable', 'C08_delete_effect_reachable', 'C08_clear_effect_reachable']],
+    "C03": COMPOSE[:3] + COMPOSE[8:] + SCHEDFACTS + [("QuartzModel.Theorems.C03", "Sched." + t) for t in ['C03_dispatch_has_entry', 'C03_never_early', 'C03_dispatch_is_popped_min', 'C03_own_trigger_once', 'C03_dispatch_answers_own_trigger', 'C03_at_most_once']], "C04": COMPOSE[3:8] + SCHEDFACTS + [("QuartzModel.Theorems.C04", "Sched." + t) for t in ['C04_accounted', 'C04_suspended_untouched', 'C04_misfire_iff_late', 'C04_misfire_only_if_late', 'C04_leaves_registry', 'C04_no_drift', 'C04_no_drift_start', 'C04_run_once', 'C04_hyps_reachable']], "C08": SCHEDFACTS + [("QuartzModel.Theorems.C12", "Pool.C12_facts")] + [("QuartzModel.Theorems.C08", "Sched." + t) for t in ['C08_pause_effect', 'C08_resume_from_now', 'C08_paused_no_consumption', 'C08_delete_effect', 'C08_clear_effect', 'C08_paused_no_consumption_reachable', 'C08_delete_effect_reachable', 'C08_clear_effect_reachable']],
     "C09": [("QuartzModel.Theorems.C09", "Sched." + t) for t in ['C09_schedule_error_unchanged', 'C09_schedule_error_state_unchanged', 'C09_delete_error_unchanged', 'C09_pause_error_unchanged', 'C09_resume_error_unchanged', 'C09_schedule_error_iff', 'C09_delete_error_iff', 'C09_pause_error_iff', 'C09_resume_error_iff', 'C09_keys_unique', 'C09_keys_unique_entry', 'C09_keys_unique_count', 'C09_replace_exact', 'C09_no_replace_rejected']] + [("QuartzModel.Theorems.C09Lin", "Sched." + t) for t in ["C09_lock_facts", "C09_unlocked_are_reads", "C09_schedule_reads_under_lock", "pauseOp_run", "C09_linearizable"]] +
            [("QuartzModel.Concurrency.Lock", "Lock.linearizable")],
     "C11": [("QuartzModel.Theorems.C11", "Queue." + t) for t in [
